@@ -21,6 +21,18 @@ CHECKS = {
         "values are compared with tolerance 1e-12+1e-9 rel (most are bit-identical, counted in the evidence).",
         "5/C03",
     ),
+    "C07": (
+        "model_checking",
+        "grammar-bounded exhaustive enumeration of consequents executed on the real Rule/RuleBlock against a reference model",
+        "All consequents of 1..3 conclusions over an alphabet of (output variable, term, hedge chain) triples - i.e. "
+        "every order of every multiset of conclusions - are loaded with Rule.create and triggered with every degree of "
+        "{0,.25,.5,1,NaN,+-inf}, a batch, and disabled; 1-2 conclusion rules also run through RuleBlock.activate with "
+        "and without a weight next to a second rule. After each step the fuzzy outputs of all variables are compared "
+        "term by term, degree by degree and implication by identity with the reference contribution list.",
+        "Hedge chains of length <= 2 (quick: 12 chains; thorough: all 43); 3 output variables, 2 terms. The known "
+        "finding C07-hedge-leak is matched only when the observed degrees equal the defect model exactly.",
+        "5/C07",
+    ),
     "C11": (
         "exploration",
         "bounded-exhaustive enumeration of monotonic terms x activation-degree grid with an intrinsic inverse oracle",
